@@ -100,8 +100,9 @@ def wt(e: 'Expr') -> 'Bool':
         # the result type is the declared one of a built-in function
         return builtin_call(e.function, d) and all(wt(a) for a in e.arguments)
     # quantifier
+    # "the bound variable of a quantifier is used only at the element type of its domain"
     return d == BOOL and within(e.domain.data_type, COMPOUND) and e.condition.data_type == BOOL \
-        and wt(e.domain) and wt(e.condition)
+        and wt(e.domain) and wt(e.condition) and uses_ok(e.condition, e.variable, elem_type(e.domain))
 
 
 # ---- function signatures (C05: "no overload accepts => TypeError")
